@@ -173,7 +173,10 @@ def present(X, kind, labels):
     if kind == "nested":
         return [[float(v) for v in row] for row in X], default
     if kind == "frame":
-        return pd.DataFrame(np.array(X, dtype=float), columns=labels), list(labels)
+        # the row index is neither data nor a parameter: countdown / shuffled-looking ids / dates must not matter
+        T_ = X.shape[0]
+        index = [None, list(range(T_ - 1, -1, -1)), [(7 * i + 3) % (T_ + 5) for i in range(T_)], None][int(np.sum(np.abs(X)) * 1000) % 4]
+        return pd.DataFrame(np.array(X, dtype=float), columns=labels, index=index), list(labels)
     if kind == "frame_cols":
         return pd.DataFrame({l: np.array(X[:, j], dtype=float) for j, l in enumerate(labels)}), list(labels)
     if kind == "int_c":
